@@ -845,6 +845,8 @@ class SemanticErrorChecker:
             given_type = helpers.get_type_of_variable_list(expression, task, self.structs)
             return isinstance(given_type, str) and given_type == "number"
         if isinstance(expression, dict):
+            if len(expression) == 2:  # unary operation: '!' yields a boolean
+                return False
             if expression["left"] == "(" and expression["right"] == ")":
                 return self.expression_is_number(expression["binOp"], task)
             else:
